@@ -18,6 +18,20 @@ WRAP_TYPES = {'Int8': 'i8', 'Int16': 'i16', 'Int32': 'i32', 'Int64': 'i64', 'Uin
 INT_BOUNDS = [2**7, 2**8, 2**15, 2**16, 2**31, 2**32, 2**63, 2**64]
 
 
+# numpy datetime64 units the simulated caller uses, in microseconds; 'ns' (the unit pandas uses) holds whole microseconds
+# here, because the format's timestamps are written with microsecond resolution
+UNIT_US = {'us': 1, 'ms': 1000, 's': 10**6, 'm': 60 * 10**6, 'h': 3600 * 10**6, 'D': 86400 * 10**6}
+UNITS = ['us', 'us', 'us', 'ms', 's', 'ns', 'ns', 'm', 'h', 'D']
+
+
+def to_unit(us, unit):
+    return us * 1000 if unit == 'ns' else us // UNIT_US[unit]
+
+
+def from_unit(v, unit):
+    return v // 1000 if unit == 'ns' else v * UNIT_US[unit]
+
+
 def float_truncation_affected(us):
     """True when the writer's float scaling of a sub-second microsecond count reads back one unit low
     (the recorded finding F-C07-us-truncation); written without reference to nptdms."""
@@ -63,10 +77,9 @@ def gen_prop_value(rng):
     if k < 0.64:
         return ['datetime', gen_ts_us(rng)]
     if k < 0.72:
-        unit = rng.choice(['us', 'us', 'ms', 's'])
+        unit = rng.choice(UNITS)
         us = gen_ts_us(rng)
-        step = {'us': 1, 'ms': 1000, 's': 10**6}[unit]
-        return ['datetime64', us // step, unit]
+        return ['datetime64', to_unit(us, unit), unit]
     if k < 0.84:
         dt = rng.choice(['<i1', '<i2', '<i4', '<i8', '<u1', '<u2', '<u4', '<u8', '<f4', '<f8'])
         return ['np', dt, gen.gen_values(rng, DT_TO_T[dt], 1).hex()]
@@ -122,7 +135,7 @@ def gen_channel_kind(rng):
     if k < 0.80:
         return {'form': rng.choice(['strs-list', 'strs-obj', 'strs-U'])}
     if k < 0.92:
-        return {'form': 'dt64', 'unit': rng.choice(['us', 'us', 'us', 'ms', 's'])}
+        return {'form': 'dt64', 'unit': rng.choice(UNITS)}
     if k < 0.96:
         return {'form': 'dt-list'}
     return {'form': 'tsarray'}
@@ -180,8 +193,7 @@ def gen_channel_data(rng, kind, allow_empty=True):
             strs = [s.replace('\x00', 'x') for s in strs]       # numpy U strings strip trailing NULs
         d['strs'] = strs
     elif form == 'dt64':
-        step = {'us': 1, 'ms': 1000, 's': 10**6}[kind['unit']]
-        d['ints'] = [gen_ts_us(rng) // step for _ in range(n)]
+        d['ints'] = [to_unit(gen_ts_us(rng), kind['unit']) for _ in range(n)]
     elif form == 'dt-list':
         n = max(1, n)
         d['us'] = [rng.randint(-2 * 10**15, 4 * 10**15) for _ in range(n)]
@@ -422,7 +434,7 @@ def expected_prop(pv):
     if k == 'datetime':
         return 'ts-us', pv[1]
     if k == 'datetime64':
-        return 'ts-us', pv[1] * {'us': 1, 'ms': 1000, 's': 10**6}[pv[2]]
+        return 'ts-us', from_unit(pv[1], pv[2])
     if k == 'np':
         t = DT_TO_T[pv[1]]
         b = bytes.fromhex(pv[2])
@@ -456,8 +468,7 @@ def data_model(d):
     if form in ('strs-list', 'strs-obj', 'strs-U'):
         return ('strs', None, list(d['strs']))
     if form == 'dt64':
-        step = {'us': 1, 'ms': 1000, 's': 10**6}[d['unit']]
-        return ('us', None, [v * step for v in d['ints']])
+        return ('us', None, [from_unit(v, d['unit']) for v in d['ints']])
     if form == 'dt-list':
         return ('us', None, list(d['us']))
     if form == 'tsarray':
